@@ -506,10 +506,14 @@ OPEN — carried by K/O only
 * exit = 0 ↔ "no fault was injected" at the level of the INPUT TEXTS: the parsers stay abstract in the composed
   theorems (any functions `file index → text → document | error`); that the real parsers are `Build.parseTs` /
   `Build.parseOp` with positions re-stamped by the file index, produce no empty selection set and stamp every position
-  (`ParserStamps`) is C07 / C08 and the K streams, not a theorem here.  The glue of `stagesOf` (merge = concatenation
-  + built-ins, `Operations::new` keeps the last file of a path, imported definitions appended) mirrors main.rs /
-  check.rs by inspection; there is no K stream that feeds whole projects through `stagesOf` (the K stream of C18
-  feeds the REAL stage results to the driver model; each stage model has the K stream of its own property).
+  (`ParserStamps`) is C07 / C08 and the K streams, not a theorem here.  The other parameters of `Env` (`res` =
+  `resolve_relative_path`, the name coding, `pathPos`, the tag tables) are abstract as well, and the command list, the
+  generate options, `ScalarTypeNotProvided` and the results of the writes (`IoRes`) are INPUTS of the project that no
+  stage model computes.  The glue of `stagesOf` (merge = concatenation + built-ins, `Operations::new` keeps the last
+  file of a path, imported definitions appended) was read off main.rs / check.rs; it is not proved but COMPARED: the
+  K stream `composed:*` (harness/src/bin/c18/composed.rs) evaluates `runCli (stagesOf E P)` on whole projects — only
+  the parsers are real — against the json run of the binary (the other K stream of C18 feeds the REAL stage results
+  to the driver model; each stage model has the K stream of its own property).
 * the stage models report `(kind, main position)`: the notes (`additional_info`) of the two checkers' diagnostics are not
   in the models, so the composed diagnostics carry none for them (observed on the binary by K).
 * side conditions that stay hypotheses in the composed theorems: C03's `SchemaValid` of the resolved schema in
@@ -522,6 +526,8 @@ OPEN — carried by K/O only
   positions of parsed documents are token starts.)
 * one well-formed JSON document on stdout; stdout/stderr separation; what the file system really contains after
   the run: observed on the binary (O clauses `json-wellformed`, `written-neq-listed`, `check-writes-files`, …).
+  `written` / `listed` are lists of output-file IDENTITIES (`OutFile` = target + is-it-a-map); the CONTENT of the
+  written files is not in this model (the printers are the subject of other properties).
 -/
 
 end NitroVerif.Cli
